@@ -280,7 +280,33 @@ def _z3v():
     return z3.get_version_string()
 
 
+def _quiet_stderr():
+    """z3 prints 'if cannot be used in patterns' warnings at C level (the engine retries without patterns): keep
+    them out of the check's output."""
+    import atexit
+    import tempfile
+    try:
+        tmp = tempfile.TemporaryFile(mode="w+b")
+        saved = os.dup(2)
+        os.dup2(tmp.fileno(), 2)
+
+        def restore():
+            try:
+                sys.stderr.flush()
+                os.dup2(saved, 2)
+                tmp.seek(0)
+                for line in tmp.read().decode("utf-8", "replace").splitlines():
+                    if "cannot be used in patterns" not in line and line.strip():
+                        sys.stderr.write(line + "\n")
+            except Exception:
+                pass
+        atexit.register(restore)
+    except Exception:
+        pass
+
+
 def main(argv):
+    _quiet_stderr()
     pid = argv[0]
     tier = os.environ.get("VERIF_TIER", "quick")
     seed = int(os.environ.get("VERIF_SEED", "0") or 0)
